@@ -11,6 +11,8 @@ Logics: QF_UF, QF_LRA, QF_LIA, QF_IDL, QF_RDL.  Families:
    php     pigeon-hole (holes+1 pigeons) over Booleans, optionally linked to theory atoms
    sched   disjunctive difference / ordering constraints (many theory conflicts)    [arith logics]
    diamond equality diamonds with uninterpreted functions (many EUF conflicts)       [QF_UF]
+   deep    (gen_deep_history) 2-4 OPEN push levels at an unsat check-sat, level-0 facts (units, facts found only by
+           search, top-level equalities) used by clauses / theory atoms of the deeper levels, popped and reopened levels
 Histories: assert / push / pop / check-sat sequences with named assertions; the non-incremental variant has
 exactly one check-sat and no push/pop (SatELite runs only then).
 """
@@ -315,6 +317,154 @@ def gen_script(rng, logic=None, incremental=None, size=1, family=None, ite=True)
                     nchecks += 1
     body = "\n".join(["(set-logic %s)" % logic] + g.decls + cmds) + "\n"
     return dict(logic=logic, body=body, family=family, incremental=incremental, nchecks=nchecks)
+
+
+def gen_deep_history(rng, logic=None, size=1):
+    """Histories with SEVERAL open push levels at the time of an unsat check-sat (final conflicts found over two or
+    more activation assumptions), built on level-0 facts that deeper levels depend on:
+      * Boolean facts that hold at level 0 only after search / propagation ((or a b)(or a (not b)), units, short
+        implication chains), used negatively by clauses asserted at deeper levels;
+      * top-level theory facts (equalities in QF_UF, equalities / bounds in the arithmetic logics) continued by
+        theory atoms of deeper levels ((= x y) | push (= y z) | push (not (= x z)));
+      * levels that are popped and reopened with a different continuation, check-sat before and after.
+    Returns the same dict as gen_script (family 'deep')."""
+    logic = logic or rng.choice(LOGICS)
+    g = G(rng, logic, size, ite=False)
+    r = rng
+    cmds = []
+    nname = [0]
+
+    def assert_(f):
+        if r.random() < 0.15:
+            nname[0] += 1
+            return "(assert (! %s :named n%d))" % (f, nname[0])
+        return "(assert %s)" % f
+
+    # ---- level 0 facts ---------------------------------------------------------------------
+    nfacts = r.randint(1, 3)
+    facts = []                     # literals (text) true at level 0
+    fresh = ["d%d" % i for i in range(12)]
+    for b in fresh:
+        g.decls.append("(declare-fun %s () Bool)" % b)
+    fi = iter(fresh)
+    base = []
+    for _ in range(nfacts):
+        a = next(fi)
+        k = r.random()
+        if k < 0.45:
+            b = next(fi)           # a follows only by search / by a learnt unit
+            base += ["(or %s %s)" % (a, b), "(or %s (not %s))" % (a, b)]
+        elif k < 0.7:
+            base.append(a)         # plain unit
+        else:
+            b = next(fi)           # implied through another unit
+            base += [b, "(or (not %s) %s)" % (b, a)]
+        facts.append(a)
+    # theory chain terms
+    if g.arith:
+        ts = list(g.xs)
+        while len(ts) < 4:
+            nm = "y%d" % len(ts)
+            g.decls.append("(declare-fun %s () %s)" % (nm, "Int" if g.int else "Real"))
+            ts.append(nm)
+    else:
+        ts = list(g.cs)
+        while len(ts) < 4:
+            nm = "b%d" % len(ts)
+            g.decls.append("(declare-fun %s () U)" % nm)
+            ts.append(nm)
+    r.shuffle(ts)
+
+    def eq(x, y):
+        if g.arith and r.random() < 0.4:
+            return "(and (<= %s %s) (>= %s %s))" % (x, y, x, y) if not g.diff else "(and (<= (- %s %s) 0) (<= (- %s %s) 0))" % (x, y, y, x)
+        return "(= %s %s)" % (x, y)
+
+    def neq(x, y):
+        if g.arith:
+            return r.choice(["(not (= %s %s))" % (x, y), "(< %s %s)" % (x, y), "(> %s %s)" % (x, y)]) if not g.diff else \
+                r.choice(["(not (= %s %s))" % (x, y), "(< (- %s %s) 0)" % (x, y)])
+        if r.random() < 0.3:
+            return "(not (= (f %s) (f %s)))" % (x, y)
+        return "(not (= %s %s))" % (x, y)
+    use_theory = r.random() < 0.7
+    if use_theory:
+        base.append(eq(ts[0], ts[1]))
+    for _ in range(r.randint(0, 3)):
+        base.append(g.clause())
+    r.shuffle(base)
+    cmds += [assert_(f) for f in base]
+    if r.random() < 0.4:
+        cmds.append("(check-sat)")
+    nchecks = 0
+
+    # ---- episodes with 2..4 open levels ----------------------------------------------------
+    def episode():
+        """list of per-level assertion lists; the conjunction of all of them with level 0 is (usually) unsat"""
+        depth = r.randint(2, 4)
+        levels = [[] for _ in range(depth)]
+        kind = r.random()
+        cvars = []
+        if kind < 0.55 or not use_theory:
+            # Boolean chain from a level-0 fact: (or (not a) c1) | (or (not c1) c2) | ... | (not ck)
+            a = r.choice(facts)
+            prev = a
+            for lv in range(depth - 1):
+                c = next(fi, None) or r.choice(g.bools)
+                extra = [] if r.random() < 0.6 else [r.choice(g.bools) if r.random() < 0.5 else "(not %s)" % r.choice(facts)]
+                levels[lv].append("(or %s)" % " ".join(["(not %s)" % prev, c] + extra))
+                for e in extra:
+                    if not e.startswith("(not"):
+                        levels[lv].append("(not %s)" % e)
+                prev = c
+            levels[depth - 1].append("(not %s)" % prev)
+        else:
+            # theory chain continuing the level-0 equality: (= t1 t2) | ... | (not (= t0 tk)), optionally gated by a fact
+            chain = ts[1:1 + depth]
+            for lv in range(depth - 1):
+                x, y = chain[lv], chain[lv + 1] if lv + 1 < len(chain) else chain[lv]
+                if x == y:
+                    levels[lv].append(g.clause())
+                    continue
+                e = eq(x, y)
+                if r.random() < 0.35:
+                    e = "(or (not %s) %s)" % (r.choice(facts), e)
+                levels[lv].append(e)
+            last = chain[min(depth - 1, len(chain) - 1)]
+            levels[depth - 1].append(neq(ts[0], last))
+        for lv in range(depth):
+            for _ in range(r.randint(0, 2)):
+                levels[lv].append(g.clause())
+            r.shuffle(levels[lv])
+        return levels
+
+    open_levels = 0
+    for e in range(r.randint(1, 3)):
+        levels = episode()
+        for lv, fs in enumerate(levels):
+            cmds.append("(push 1)")
+            open_levels += 1
+            cmds += [assert_(f) for f in fs]
+            if lv < len(levels) - 1 and r.random() < 0.25:
+                cmds.append("(check-sat)")
+                nchecks += 1
+        cmds.append("(check-sat)")
+        nchecks += 1
+        # pop some levels, maybe reopen with another final contradiction
+        npop = r.randint(1, open_levels)
+        cmds.append("(pop %d)" % npop)
+        open_levels -= npop
+        if r.random() < 0.6:
+            cmds.append("(check-sat)")
+            nchecks += 1
+        if r.random() < 0.5:
+            cmds.append("(push 1)")
+            open_levels += 1
+            cmds.append(assert_("(not %s)" % r.choice(facts)) if r.random() < 0.5 else assert_(g.clause()))
+            cmds.append("(check-sat)")
+            nchecks += 1
+    body = "\n".join(["(set-logic %s)" % logic] + g.decls + cmds) + "\n"
+    return dict(logic=logic, body=body, family="deep", incremental=True, nchecks=nchecks)
 
 
 # option vectors: (name, option lines, needs a non-incremental script?)
